@@ -43,9 +43,9 @@ fn main() {
     // subsets over the whole pool (incl. the three `mix` collectors) that contain a same-name group or a mix collector
     let subsets: Vec<Vec<usize>> = combi::subsets(POOL.len(), 1, max_size)
         .into_iter()
-        .filter(|s| thorough || s.iter().any(|i| *i >= 7) || s.len() <= 2)
+        .filter(|s| thorough || s.iter().any(|i| *i >= 7 && *i != 12) || s.len() <= 2)
         .collect();
-    rep.rule = format!("collector pool {:?}; all subsets of size <= {} (quick: those touching a shared metric name, and all of size <= 2) x all registration orders x all registry-internal collect orders x 2 registry configurations; every sample of every gathered family must carry exactly the payload of the family's declared type and the declared type must be the same for all orders. distinct = distinct (subset, family, type, payload kinds) observations", POOL.iter().map(|p| p.name).collect::<Vec<_>>(), max_size);
+    rep.rule = format!("collector pool {:?}; all subsets of size <= {} (quick: those touching a shared metric name, and all of size <= 2) x all registration orders x all registry-internal collect orders x 3 registry configurations (plain, prefix `p`, two common labels); every sample of every gathered family must carry exactly the payload of the family's declared type and the declared type must be the same for all orders. distinct = distinct (subset, family, type, payload kinds) observations", POOL.iter().map(|p| p.name).collect::<Vec<_>>(), max_size);
     rep.bounds = json!({"subset_size": max_size, "pool": POOL.len()});
     let work: Mutex<Vec<Vec<usize>>> = Mutex::new(subsets);
     let reports: Mutex<Vec<Report>> = Mutex::new(vec![]);
@@ -66,14 +66,17 @@ fn main() {
                             e.push(POOL[i].kind);
                         }
                     }
-                    for cfg in [configs()[0].clone(), configs()[3].clone()] {
+                    for cfg in [configs()[0].clone(), configs()[1].clone(), configs()[3].clone()] {
                         let mut types_seen: BTreeMap<String, Vec<RType>> = BTreeMap::new();
                         let mut gathers = 0u64;
                         let mut bad: Vec<(String, String, serde_json::Value)> = vec![];
                         let r = enumerate_orders(&members, &cfg, true, &mut gathers, |run| {
                             for mf in &run.result {
                                 let f = RFamily::from_proto(mf);
-                                let base = f.name.trim_start_matches("p_q_").trim_start_matches("p_").to_string();
+                                let base = match run.cfg.prefix {
+                                    Some(p) => f.name.strip_prefix(&format!("{}_", p)).unwrap_or(&f.name).to_string(),
+                                    None => f.name.clone(),
+                                };
                                 let e = types_seen.entry(base.clone()).or_default();
                                 if !e.contains(&f.typ) {
                                     e.push(f.typ);
